@@ -1,6 +1,6 @@
 """Rules about the tag/ref directory (hfiledd.c): F3 persist-after-mutate, pairing,
 F11 crash-ordering structure."""
-from .facts import kind, strip, walk, path, base_var, mem_field, render, int_val, is_int, calls_in
+from .facts import kind, strip, walk, path, base_var, mem_field, render, int_val, is_int, calls_in, int_name
 from .flow import PathAnalysis, fail_values, classify_ret
 
 DD_REC = "dd_t"
@@ -708,4 +708,52 @@ def rule_unrolled_pairs(ctx):
                 else:
                     ctx.violated("UNROLL2", key, f.where(), why)
     ctx.floor("UNROLL2", 1, n, "(loops consuming two elements per iteration)")
+    return n
+
+
+def _addends(e):
+    e = strip(e)
+    if kind(e) == "bin" and e[1] == "+":
+        return _addends(e[2]) + _addends(e[3])
+    return [e]
+
+
+def rule_ddblock_extent(ctx):
+    """DDBLOCKSZ (C12, C17): on disk a DD block is a 6-byte header (NDDS_SZ + OFFSET_SZ) followed by ndds descriptors of DD_SZ
+    bytes.  Every sum that locates something behind descriptors — it has an addend `k * DD_SZ` together with a block offset, or
+    is the size requested for a whole block — also counts the header; a sum that leaves it out places the end of the block, the
+    end of the file or a descriptor 6 bytes too early, and later allocations overlap the block."""
+    prog = ctx.prog
+    n = 0
+    for f in prog.lib_funcs():
+        if not f.rel.startswith("hdf/src/"):
+            continue
+        seen = set()
+        for bid, i, s, x in f.nodes(True):
+            if not (x[0] == "bin" and x[1] == "+"):
+                continue
+            ads = _addends(x)
+            dd = [a for a in ads if kind(a) == "bin" and a[1] == "*" and any(int_name(y) == "DD_SZ" for y in (a[2], a[3]))]
+            if not dd:
+                continue
+            # only maximal sums
+            r = render(x)
+            if any(r in o and r != o for o in seen):
+                continue
+            others = [a for a in ads if a not in dd]
+            located = any(mem_field(a) and mem_field(a)[1] in ("myoffset", "nextoffset") for a in others)
+            consts = sum(int_val(a) for a in others if is_int(a))
+            whole = any(is_int(a) for a in others)
+            if not located and not whole:
+                continue
+            seen.add(r)
+            line = s.get("l", f.line)
+            n += 1
+            key = "DDBLOCKSZ:%s:%d" % (f.name, len(seen))
+            if consts == HDR_SZ:
+                ctx.holds("DDBLOCKSZ", key, f.where(line), "`%s` counts the %d-byte block header" % (r[:80], HDR_SZ), nontrivial=True)
+            else:
+                ctx.violated("DDBLOCKSZ", key, f.where(line), "`%s` adds descriptors of DD_SZ bytes to a block offset but counts %d instead of %d bytes for the block header (NDDS_SZ + OFFSET_SZ): "
+                             "the position it computes lies inside the DD block" % (r[:90], consts, HDR_SZ))
+    ctx.floor("DDBLOCKSZ", 4, n, "(offset sums over DD_SZ-sized descriptors)")
     return n
